@@ -70,7 +70,7 @@ def norm_msg(m):
             'mem': B(f.get(F_MEMBER)), 'err': B(f.get(F_ERROR_NAME)), 'sig': B(m.sig),
             'args': norm_args(m.sig, m.body), 'fl': m.flags, 'nfd': f.get(F_UNIX_FDS, 0),
             'unk': sorted(c for c, _s, _v in m.raw_fields if c not in known),
-            'ci': F_CONTAINER_INSTANCE in f,
+            'ci': F_CONTAINER_INSTANCE in f, 'mal': bool(m.dirty),
             '_': _human(m)}
 
 
